@@ -999,6 +999,26 @@ static int apply_patch(cJSON *object, const cJSON *patch, const cJSON_bool case_
 
     /* Now, just add "value" to "path". */
 
+    if (path->valuestring[0] == '\0')
+    {
+        /* copy or move onto the root (add and replace were handled above) */
+        overwrite_item(object, *value);
+
+        /* delete the shell of the moved or duplicated value */
+        cJSON_free(value);
+        value = NULL;
+
+        /* the root has no name */
+        if (object->string != NULL)
+        {
+            cJSON_free(object->string);
+            object->string = NULL;
+        }
+
+        status = 0;
+        goto cleanup;
+    }
+
     /* split pointer in parent and child */
     parent_pointer = cJSONUtils_strdup((unsigned char*)path->valuestring);
     if (parent_pointer) {
